@@ -75,3 +75,27 @@ func VerifC08ViaKey[T any](sr *schema.StreamReader[T], key string) *schema.Strea
 		return v, nil
 	})
 }
+
+// VerifC08ViaNilAny sends a reader through a stream of any in which the zero value of T travels
+// as a nil chunk (nil is a valid value of every interface type), and back: schema's
+// StreamReaderWithConvert is applied to a stream of an interface type that holds nil chunks.
+// Item-wise the identity.
+func VerifC08ViaNilAny[T comparable](sr *schema.StreamReader[T]) *schema.StreamReader[T] {
+	var zero T
+	asr := schema.StreamReaderWithConvert(sr, func(v T) (any, error) {
+		if v == zero {
+			return nil, nil
+		}
+		return v, nil
+	})
+	return schema.StreamReaderWithConvert(asr, func(a any) (T, error) {
+		if a == nil {
+			return zero, nil
+		}
+		v, ok := a.(T)
+		if !ok {
+			return zero, fmt.Errorf("verif c08: chunk of type %T in the stream of any", a)
+		}
+		return v, nil
+	})
+}
